@@ -26,7 +26,10 @@ def gen_key(rng, shape, xname, kinds):
         ix = []
         for n in shape[: rng.randint(1, nd)]:
             r = rng.random()
-            if r < 0.6:
+            if r < 0.05:
+                # reversed slice whose start lies before the beginning: selects nothing in NumPy
+                ix.append([rng.randint(-2 * n - 1, -n - 1), rng.choice([None, 0, 1]), rng.choice([-1, -2])])
+            elif r < 0.6:
                 ix.append(G.rand_slice(rng, n, True))
             else:
                 ix.append(rng.randint(-n, n - 1))
